@@ -131,7 +131,15 @@ def run_case(case: Dict[str, Any], ctx: Any) -> core.CaseResult:
                         res.bad("iteration", f"rank {r} event {i} ({e.cat}/{e.name}, ts {e.ts}, stream {e.stream}): iteration {itv}, expected {it[i]}; "
                                 f"steps {[(s.name, s.ts, s.end) for s in steps]}", id=i, got=itv, expected=it[i])
             exp_iters = sorted({it[e.id] for e in ld.kept[r] if it[e.id] >= 0 and not (e.cat == "cuda_sync" and e.stream == -1)})
-            ok2, got_iters = drv.guard(res, "get_iterations", t.get_iterations, r)
+            # the rank as a user's code has it: a python int, or an element of a numpy array / DataFrame column
+            import numpy as np
+            r_arg = [r, np.int64(r), np.int32(r), r][(r + len(ld.kept[r])) % 4]
+            if not isinstance(r_arg, int):
+                res.counters["rank_given_as_numpy_integer"] += 1
+                okt, df_np = drv.guard(res, "get_trace(numpy rank)", t.get_trace, r_arg)
+                if okt and df_np is not t.get_trace(r):
+                    res.bad("get-trace-rank-type", f"get_trace({type(r_arg).__name__}({r})) is not the frame of rank {r}")
+            ok2, got_iters = drv.guard(res, "get_iterations", t.get_iterations, r_arg)
             if ok2 and [int(x) for x in got_iters] != exp_iters:
                 # sync rows on stream -1 may add iterations of their own; tolerate a superset limited to those
                 sync_its = {it[e.id] for e in ld.kept[r] if e.cat == "cuda_sync" and e.stream == -1 and it[e.id] >= 0}
